@@ -58,6 +58,8 @@ def rule_R2(ctx, f):
             ok = bool(e) and e[0] == P2 and not e[2] and not [a for a in e[1] if a not in ("into_iter", "iter")]
             ctx.ob(rid, "hash_label_values|write#%d" % i, ok,
                    "hash_label_values must hash each element of `vals` in slice order (found %s)" % show(w.args[1]), site=w.span)
+            ctx.ob(rid, "hash_label_values|write#%d|every-element" % i, hc.every_element(b, w) is True,
+                   "hash_label_values must hash every element of `vals`: no path through the loop body may skip the write (an empty or otherwise special value is still a value)", site=w.span)
     b = ctx.anchor(rid, "hash_labels", f.body(MV + "hash_labels"))
     if b:
         ws = b.calls_to("Hasher::write")
@@ -66,6 +68,8 @@ def rule_R2(ctx, f):
             v = peel(w.args[1], transparent=["str::as_bytes", "AsRef::as_ref", "String::as_bytes"])
             ctx.ob(rid, "hash_labels|write#%d" % i, _lookup_by_name(b, w.args[1] if False else ("ref", v)) or _lookup_by_name(b, v),
                    "hash_labels must hash labels[name] for each declared variable label name in declared order (found %s)" % show(w.args[1]), site=w.span)
+            ctx.ob(rid, "hash_labels|write#%d|every-element" % i, hc.every_element(b, w) is True,
+                   "hash_labels must hash the value of every declared name: no path through the loop body may reach the next name without the write", site=w.span)
     b = ctx.anchor(rid, "get_label_values", f.body(MV + "get_label_values"))
     if b:
         ps = b.calls_to("Vec::push")
@@ -74,6 +78,8 @@ def rule_R2(ctx, f):
             v = peel(p.args[1], transparent=["AsRef::as_ref"])
             ctx.ob(rid, "get_label_values|push#%d" % i, _lookup_by_name(b, v),
                    "get_label_values must collect labels[name] for each declared variable label name in declared order (found %s)" % show(p.args[1]), site=p.span)
+            ctx.ob(rid, "get_label_values|push#%d|every-element" % i, hc.every_element(b, p) is True,
+                   "get_label_values must collect the value of every declared name: no path through the loop body may skip the push", site=p.span)
         r = b.term_local(0)
         oks = [s for s in subterms(r)] if False else None
         # the Ok value is the vector that received the pushes
@@ -296,6 +302,12 @@ def run(ctx):
         ctx.run_rule(rid, fn, f)
     # one child per tuple also under racing first requests (shared with C10.R2)
     ctx.run_rule("R7", lambda c: vc.rule_double_checked_creation(c, f, "R7"))
+    # local vectors: the cache must not outlive the shared child it mirrors (a stale local entry is a second child for the same tuple that does not start from zero)
+    from . import C06, C12
+    ctx.rule("R8", "local vector caches mirror the shared map (shared with C12.L10): remove_label_values drops the local entry before and independently of the shared delete; "
+                   "a cloned / new local vector starts with an empty cache")
+    ctx.run_rule("R8", lambda c: C06._as(c, "R8", lambda s: C12.rule_vec_forms(s, f, "L10"),
+                                         keep=lambda k: any(x in k for x in ("remove_label_values", "::clone|starts-empty", "::new|empty-map"))))
     if ctx.tier == "thorough":
         g = ctx.facts("plain")
         ctx.run_rule("R1@plain", lambda c, _f: rule_R1(c, g), None)
